@@ -151,6 +151,19 @@ def run_case(spec):
                 break
         if len(V) > 10:
             break
+    # the caller keeps ONE buffer and overwrites it between the calls (set_link_exponents must not rely on identity)
+    live = MeshOperators(mesh, SparseSolver.SUPERLU, fixed_sites=fixed, fix_psi=fix_psi)
+    live.build_operators()
+    buf = np.zeros((m, 2))
+    for pos, k in enumerate([1, 2, 0, 3, 1]):
+        buf[...] = sym[k]
+        live.set_link_exponents(buf)
+        Gr, Lr = reference(k)
+        C["shared_buffer_checks"] = C.get("shared_buffer_checks", 0) + 1
+        for name, lm, rm in (("gradient", live.psi_gradient, Gr), ("laplacian", live.psi_laplacian, Lr)):
+            d2_ = fv.max_abs_diff(lm, rm)
+            if d2_ > 1e-11 * abs(rm).max():
+                V.append({"kind": f"live_{name}_ne_reference", "mechanism": "stale_or_partial_refresh", "detail": {"sequence": "same buffer overwritten: [1,2,0,3,1]", "position": pos, "max_abs_diff": d2_, "pin": pin}})
     return {
         "violations": V[:10],
         "counters": C,
